@@ -442,10 +442,7 @@ def mem2_newton_solver(
         jacobian = mem2_jacobian(
             current_iterate, twiddle_factors, direction_increment, jacobian
         )
-        try:
-            update_iterate = solve_cholesky(jacobian, -current_func)
-        except Exception:
-            update_iterate = np.linalg.lstsq(jacobian, -current_func, rcond=rcond)[0]
+        update_iterate = _solve_newton_update(jacobian, -current_func, rcond)
 
         magnitude_current_iterate = np.linalg.norm(current_iterate)
         magnitude_update = np.linalg.norm(update_iterate)
@@ -495,6 +492,20 @@ def mem2_newton_solver(
     )
 
     return directional_distribution
+
+
+@numba.njit(cache=True)
+def _solve_newton_update(jacobian, rhs, rcond):
+    """
+    Solve jacobian @ update = rhs. Falls back to a (truncated) least squares solve if
+    the jacobian is not positive definite to working precision. Note: the try/except
+    needs to live in its own small jitted function- inside the solver loop numba does
+    not catch the exception raised by solve_cholesky.
+    """
+    try:
+        return solve_cholesky(jacobian, rhs)
+    except Exception:
+        return np.linalg.lstsq(jacobian, rhs, rcond=rcond)[0]
 
 
 # mem2 functions
